@@ -814,6 +814,12 @@ class Engine:
             s = self._len_of(a)
             if s is None and a[0] == 'lin' and a[1] == 0 and len(a[2]) == 1 and a[2][0][1] == 1:
                 s = self._len_of(a[2][0][0])
+            if s is None:
+                # a generation-time integer that a rule has shown to be the width of some signals / the length of a loop
+                a1 = a[2][0][0] if (a[0] == 'lin' and a[1] == 0 and len(a[2]) == 1 and a[2][0][1] == 1) else a
+                for key, sigs, loops in getattr(self, 'size_hints', ()):
+                    if a1 == key:
+                        s = ('sized', key, tuple(sigs), tuple(loops))
             if s is None or b[0] != 'const' or not isinstance(b[1], int) or isinstance(b[1], bool):
                 continue
             f = (lambda n: ops[e[1]](b[1], n)) if flip else (lambda n: ops[e[1]](n, b[1]))
@@ -826,6 +832,8 @@ class Engine:
         """`e` is the constant 0 whenever `s` has width 0 (operands are zero-extended; a slice of nothing is nothing)."""
         if e == s:
             return True
+        if s[0] == 'sized':
+            return any(self._vanishes_with(e, x) for x in s[2])
         k = e[0]
         if k == 'bin' and e[1] == '&':
             return self._vanishes_with(e[2], s) or self._vanishes_with(e[3], s)
@@ -854,6 +862,11 @@ class Engine:
                     continue
                 ea = self.atom_ir.get(a)
                 if ea is None:
+                    continue
+                if s[0] == 'sized' and s[3] and any(x[0] == 'item' and x[1] in s[3] for x in ir.walk(ea)):
+                    # the atom speaks about an element of a collection that is empty in this case: there is no such element
+                    links.append((la, t0, a, True))
+                    links.append((la, t0, a, False))
                     continue
                 if ea[0] == 'cmp' and ea[1] == '==':
                     for x, y in ((ea[2], ea[3]), (ea[3], ea[2])):
@@ -955,6 +968,71 @@ def compare(engine, got, want, assume=None):
                 cur = ('const', int(val[tkey]))
                 a = cur if a == ('hold',) else a
                 b = cur if b == ('hold',) else b
+        if a != b and a[0] == 'sym' and b[0] == 'sym':
+            # the row fixes generation-time quantities (`K == 0` holds here): both values are read with K replaced by that constant
+            eqs = []
+            for k_, v_ in val.items():
+                e_ = engine.atom_ir.get(k_)
+                if v_ and e_ is not None and e_[0] == 'cmp' and e_[1] == '==':
+                    for x_, y_ in ((e_[2], e_[3]), (e_[3], e_[2])):
+                        if y_[0] == 'const' and isinstance(y_[1], int) and not isinstance(y_[1], bool) and x_[0] != 'const':
+                            eqs.append((x_, y_))
+                            try:
+                                r_ = engine.eval_value(x_, val)     # the same quantity with this row's choices resolved
+                                if r_[0] == 'sym' and r_[2] != x_:
+                                    eqs.append((r_[2], y_))
+                            except Exception:
+                                pass
+            # ... and quantities that are a width / a length: when such a size is 0 here, everything that has no bits is the value 0
+            zero = []
+            for k_, v_ in val.items():
+                e_ = engine.atom_ir.get(k_)
+                z_ = engine._len_zero_when(e_) if e_ is not None else None
+                if z_ is not None and z_[1] == v_:
+                    zero.append(z_[0])
+                    if z_[0][0] == 'sized':
+                        eqs.append((z_[0][1], ('const', 0)))
+            if eqs:
+                def sp(x):
+                    for _ in range(3):
+                        x2 = engine.norm(ir.subst(x, lambda t: next((c_ for e_, c_ in eqs if t == e_), None)))
+                        if x2 == x:
+                            break
+                        x = x2
+                    return x
+                a2, b2 = sp(a[2]), sp(b[2])
+                if a2 == b2:
+                    continue
+                if zero:
+                    def nothing(x):
+                        if x == ('const', 0):
+                            return True
+                        if x[0] == 'sub' and x[2][0] == 'slice' and x[2][1] == x[2][2]:
+                            return True                 # x[a:a]
+                        return any(engine._vanishes_with(x, s_) for s_ in zero)
+                    if nothing(a2) and nothing(b2):
+                        continue
+        if a != b and a[0] == 'const' and b[0] == 'sym' or a != b and a[0] == 'sym' and b[0] == 'const':
+            zero = []
+            eqs2 = []
+            for k_, v_ in val.items():
+                e_ = engine.atom_ir.get(k_)
+                z_ = engine._len_zero_when(e_) if e_ is not None else None
+                if z_ is not None and z_[1] == v_:
+                    zero.append(z_[0])
+                    if z_[0][0] == 'sized':
+                        eqs2.append((z_[0][1], ('const', 0)))
+            if zero:
+                c_, s_ = (a, b) if a[0] == 'const' else (b, a)
+                x = s_[2]
+                for _ in range(3):
+                    x2 = engine.norm(ir.subst(x, lambda t: next((cc for ee, cc in eqs2 if t == ee), None)))
+                    if x2 == x:
+                        break
+                    x = x2
+                gone = (x[0] == 'sub' and x[2][0] == 'slice' and x[2][1] == x[2][2]) or any(engine._vanishes_with(x, z) for z in zero)
+                if c_[1] == 0 and gone:
+                    continue
         if a != b:
             on = ", ".join(f"{k}={int(v)}" for k, v in sorted(val.items()))
             if any("<<" in k for k in val):
@@ -968,6 +1046,47 @@ def compare(engine, got, want, assume=None):
                 return is_config(x) and not engine.w.is_signal(x)
             opaque_side = (a[0] == 'sym' and cfg(a[2])) or (b[0] == 'sym' and cfg(b[2]))
             both_signals = a[0] == 'sym' and b[0] == 'sym' and engine.w.is_signal(a[2]) and engine.w.is_signal(b[2]) and a[2] != b[2]
+            # a generation-time quantity against a constant, and the row itself says they are unequal (`1 < n` holds here): a real difference
+            def row_separates(x, y):
+                if x[0] != 'sym' or y[0] != 'sym':
+                    return False
+                def sp_(t):
+                    for _ in range(3):
+                        t2 = engine.norm(ir.subst(t, lambda u: next((c_ for e_, c_ in eqs_row if u == e_), None)))
+                        if t2 == t:
+                            break
+                        t = t2
+                    return t
+                eqs_row = []
+                for k_, v_ in val.items():
+                    e_ = engine.atom_ir.get(k_)
+                    if v_ and e_ is not None and e_[0] == 'cmp' and e_[1] == '==':
+                        for p_, q_ in ((e_[2], e_[3]), (e_[3], e_[2])):
+                            if q_[0] == 'const' and isinstance(q_[1], int) and not isinstance(q_[1], bool) and p_[0] != 'const':
+                                eqs_row.append((p_, q_))
+                x2, y2 = sp_(x[2]), sp_(y[2])
+                for k2, e2 in ((x2, y2), (y2, x2)):
+                    if k2[0] == 'const' and isinstance(k2[1], int) and not isinstance(k2[1], bool) and is_config(e2):
+                        for k_, v_ in val.items():
+                            e_ = engine.atom_ir.get(k_)
+                            if e_ is None or e_[0] != 'cmp':
+                                continue
+                            try:
+                                r_ = engine.eval_value(e_[2], val), engine.eval_value(e_[3], val)
+                                l_, rr_ = (r_[0][2] if r_[0][0] == 'sym' else r_[0]), (r_[1][2] if r_[1][0] == 'sym' else r_[1])
+                            except Exception:
+                                l_, rr_ = e_[2], e_[3]
+                            for lhs, op, rhs in ((l_, e_[1], rr_), (rr_, {'<': '>', '>': '<', '<=': '>=', '>=': '<=', '==': '==', '!=': '!='}.get(e_[1]), l_)):
+                                if lhs == e2 and rhs[0] == 'const' and isinstance(rhs[1], int) and op is not None:
+                                    c0 = rhs[1]
+                                    # values of E allowed by this atom's truth value exclude k2?
+                                    ops = {'<': lambda n: n < c0, '>': lambda n: n > c0, '<=': lambda n: n <= c0, '>=': lambda n: n >= c0,
+                                           '==': lambda n: n == c0, '!=': lambda n: n != c0}
+                                    if op in ops and ops[op](k2[1]) != bool(v_):
+                                        return True
+                return False
+            if a[0] == 'sym' and b[0] == 'sym' and row_separates(a, b):
+                return False, rows, f"at [{on}] found {_vs(a)} expected {_vs(b)}"
             if not both_signals and (opaque_side or (a[0] == 'sym' and b[0] == 'sym' and differ(a[2], b[2]) != 'different')):
                 raise Undecided(f"at [{on}] the value is {_vs(a)} where the role table has {_vs(b)}: two expressions outside the "
                                 "normal forms; their equivalence is not decided (N5)")
